@@ -7,6 +7,7 @@ import (
 	"net/http"
 	"time"
 
+	"github.com/resgateio/resgate/server/rescache"
 	"github.com/resgateio/resgate/zzvf"
 )
 
@@ -210,6 +211,9 @@ func VF_C20_L1_Stop() {
 	}
 	zzvf.Assert(s.stop == nil && !s.stopping && s.StopChannel() == nil, "service-is-stopped")
 	zzvf.Assert(w.mq.closes == 1 && w.mq.closed, "messaging-client-closed-once")
+	// a stopped cache leaves no eviction pending that could fire into the
+	// next Start of the same service
+	zzvf.Assert(rescache.VFEvictionQueueLen(s.cache) == 0, "stopped-cache-has-no-eviction-pending")
 	for _, cl := range w.clients {
 		if cl.c.ws == nil {
 			continue
